@@ -314,16 +314,19 @@ func dialNDP(ifi *net.Interface) (*ndp.Conn, netip.Addr, error) {
 	f.Accept(ipv6.ICMPTypeRouterAdvertisement)
 
 	if err := c.SetICMPFilter(&f); err != nil {
+		_ = c.Close()
 		return nil, netip.Addr{}, fmt.Errorf("failed to apply ICMPv6 filter: %v", err)
 	}
 
 	// Enable inspection of IPv6 control messages.
 	if err := c.SetControlMessage(ipv6.FlagHopLimit, true); err != nil {
+		_ = c.Close()
 		return nil, netip.Addr{}, fmt.Errorf("failed to apply IPv6 control message flags: %v", err)
 	}
 
 	// We are now a router or want to examine messages as one would.
 	if err := c.JoinGroup(netip.IPv6LinkLocalAllRouters()); err != nil {
+		_ = c.Close()
 		return nil, netip.Addr{}, fmt.Errorf("failed to join IPv6 link-local all routers multicast group: %v", err)
 	}
 
